@@ -96,7 +96,11 @@ func (s *sampler) walk(e *Expr, depth int) {
 			return
 		}
 		if r := s.g.Rule(e.Name); r != nil {
-			s.walk(r.Expr, depth+1)
+			if r.LR != nil {
+				s.walkLR(r, depth+1)
+			} else {
+				s.walk(r.Expr, depth+1)
+			}
 		}
 	case KSeq:
 		for _, x := range e.Sub {
@@ -177,6 +181,40 @@ func (s *sampler) walk(e *Expr, depth int) {
 	}
 }
 
+// tailRest returns the elements of a recursive alternative behind its leading reference.
+func tailRest(alt *Expr) []*Expr {
+	for alt.K == KAction || alt.K == KLabel {
+		alt = alt.Sub[0]
+	}
+	if alt.K == KSeq {
+		return alt.Sub[1:]
+	}
+	return nil
+}
+
+// walkLR samples a left-recursive rule by its denotation: a base, then 0-3 tails.
+func (s *sampler) walkLR(r *Rule, depth int) {
+	alts := r.Expr.Sub
+	if depth > 10 {
+		return
+	}
+	s.walk(alts[r.LR.Bases[s.intn(0, len(r.LR.Bases)-1, "lrbase")]], depth)
+	n := []int{0, 1, 1, 2, 2, 3}[s.intn(0, 5, "lrtails")]
+	for i := 0; i < n; i++ {
+		if r.LR.Via != "" {
+			if v := s.g.Rule(r.LR.Via); v != nil {
+				for _, x := range tailRest(v.Expr) {
+					s.walk(x, depth+1)
+				}
+			}
+		}
+		t := alts[r.LR.Tails[s.intn(0, len(r.LR.Tails)-1, "lrtail")]]
+		for _, x := range tailRest(t) {
+			s.walk(x, depth+1)
+		}
+	}
+}
+
 // SampleInput draws an input for an entry rule: a derivation sample with 0-3 edits
 // (60%), a short random string (25%) or a boundary string (15%). MaxLen bounds the size.
 func SampleInput(t *rapid.T, g *Grammar, entry string, alphabet []rune, maxLen int) []byte {
@@ -189,7 +227,11 @@ func SampleInput(t *rapid.T, g *Grammar, entry string, alphabet []rune, maxLen i
 		if r == nil {
 			r = g.Rules[0]
 		}
-		s.walk(r.Expr, 0)
+		if r.LR != nil {
+			s.walkLR(r, 0)
+		} else {
+			s.walk(r.Expr, 0)
+		}
 		out = s.out
 		ne := []int{0, 0, 0, 0, 0, 1, 1, 1, 2, 3}[s.intn(0, 9, "nedits")]
 		for i := 0; i < ne; i++ {
